@@ -469,14 +469,14 @@ def oracle(case, obs):
         dep_head = o_depths(head)
         if out["id"] != case["fresh"] or len(out["kids"]) != 2:
             return ("reroot_at_edge: the root is not a new node of out-degree two", "edge-root-shape")
-        # towards the old head: length2 ; towards the old tail: length1
+        # towards the old head: length2 ; towards the old tail: length1 (child order is not prescribed)
+        sides = [sorted(o_leafsets(k)[0], key=str) for k in out["kids"]]
+        if sorted(hl, key=str) not in sides:
+            return ("reroot_at_edge: no child of the new root carries exactly the leaves below the old head", "edge-position-sides")
         for a in hl:
             if dep_new[a] != (l2 or 0) + dep_head[a]:
                 return ("reroot_at_edge: leaf t%s below the old head is at %s from the new root, expected length2 + %s"
                         % (a, dep_new[a] * trees.UNIT, dep_head[a] * trees.UNIT), "edge-position-head")
-        lv1a, _ = o_leafsets(out["kids"][0])
-        if sorted(lv1a, key=str) != sorted(hl, key=str):
-            return ("reroot_at_edge: first child of the new root is not the old head side", "edge-position-sides")
         # every leaf on the tail side: distance to the root = length1 + (distance to the old tail node)
         if edge_hyp:
             d0 = o_dists(t)
@@ -616,14 +616,15 @@ def run(tier, seed, replay=None):
         core.broken_proof(ctx, search)
     cases = fixed_cases()
     if tier == "quick":
-        cases += [gen_case(ctx.rng, 14) for _ in range(620)]
-        cases += [gen_case(ctx.rng, 40) for _ in range(30)]
+        cases += [gen_case(ctx.rng, 14) for _ in range(700)]
+        cases += [gen_case(ctx.rng, 40) for _ in range(40)]
         ex = list(exhaustive_cases(ctx.rng, 4))
         cases += ex
     else:
         cases += list(exhaustive_cases(ctx.rng, 6))
-        cases += [gen_case(ctx.rng, 16) for _ in range(5000)]
-        cases += [gen_case(ctx.rng, 40) for _ in range(600)]
+        cases += list(exhaustive_cases(ctx.rng, 6))      # second draw of flags / rooting / lengths
+        cases += [gen_case(ctx.rng, 16) for _ in range(15000)]
+        cases += [gen_case(ctx.rng, 40) for _ in range(1500)]
     for c in cases:
         ctx.count("op:" + c["op"][0])
         ctx.count("lengths:" + c["pattern"])
